@@ -424,6 +424,68 @@ def module_data_globals(mod: ModuleInfo):
     return out
 
 
+def module_bindings(mod: ModuleInfo):
+    """Module-level name -> list of value expressions it is bound to at import time."""
+    if hasattr(mod, "_bindings"):
+        return mod._bindings
+    out = {}
+
+    def visit(stmts):
+        for s_ in stmts:
+            if isinstance(s_, ast.Assign):
+                for t in s_.targets:
+                    if isinstance(t, ast.Name):
+                        out.setdefault(t.id, []).append(s_.value)
+            elif isinstance(s_, ast.AnnAssign) and isinstance(s_.target, ast.Name) and s_.value is not None:
+                out.setdefault(s_.target.id, []).append(s_.value)
+            elif isinstance(s_, (ast.If, ast.For, ast.While, ast.With)):
+                visit(s_.body)
+                visit(getattr(s_, "orelse", []) or [])
+            elif isinstance(s_, ast.Try):
+                visit(s_.body)
+                visit(s_.orelse)
+                visit(s_.finalbody)
+                for h in s_.handlers:
+                    visit(h.body)
+
+    visit(mod.tree.body)
+    mod._bindings = out
+    return out
+
+
+RNG_CONSTRUCTORS = {"numpy.random.default_rng", "numpy.random.RandomState", "numpy.random.Generator",
+                    "random.Random", "random.SystemRandom"}
+
+
+def module_level_qualname(mod: ModuleInfo, func_expr):
+    """Qualified external name of a callee expression evaluated at module level (imports only), or None."""
+    ch = attr_chain(func_expr)
+    if ch is None:
+        return None
+    imp = mod.imports.get(ch[0])
+    if imp is None:
+        return None
+    if imp[0] == "extmod":
+        base = imp[1]
+    elif imp[0] == "ext":
+        base = (imp[1] + "." + imp[2]).lstrip(".")
+    else:
+        return None
+    return ".".join([base] + ch[1])
+
+
+def global_is_generator(program, qn):
+    """Is the module-level variable "module:name" bound (at import time) to a random generator object?"""
+    modname, _, name = qn.partition(":")
+    mod = program.modules.get(modname)
+    if mod is None:
+        return False
+    for v in module_bindings(mod).get(name, []):
+        if isinstance(v, ast.Call) and module_level_qualname(mod, v.func) in RNG_CONSTRUCTORS:
+            return True
+    return False
+
+
 def attr_chain(e):
     """Name.attr.attr -> (root_name, [attrs]) or None."""
     path = []
@@ -949,11 +1011,19 @@ class FuncAnalyzer:
                 return            # ndarray store copies the data
             env[r] = Val(cur.direct, cur.inner | v.all())
 
+    def retained(self, gname, v, node):
+        """A module-level variable / object now holds a reference to (a view of) a parameter: the argument escapes
+        into state that outlives the call."""
+        ps = sorted({o[1] for o in v.all() if o[0] == "param"})
+        if ps:
+            self.state_effect("global-retains-param", f"{gname}<-{','.join(ps)}", node)
+
     def assign(self, tg, v, env, node):
         if isinstance(tg, ast.Name):
             if tg.id in self.globals_decl:
                 self.res.n_store_sites.hit(tg)
                 self.state_effect("global-rebind", f"{self.fi.module.name}:{tg.id}", node)
+                self.retained(f"{self.fi.module.name}:{tg.id}", v, node)
             if tg.id in self.nonlocal_decl:
                 # re-binding a captured variable: the enclosing function's variable changes, no object is written
                 pass
@@ -973,6 +1043,9 @@ class FuncAnalyzer:
             self.res.n_store_sites.hit(tg)
             self.effect(base.direct, "subscript store", node)
             self.hold(tg.value, v, env)
+            for o in base.direct:
+                if o[0] == "global":
+                    self.retained(o[1], v, node)
             return
         if isinstance(tg, ast.Attribute):
             self.res.n_store_sites.hit(tg)
@@ -989,6 +1062,9 @@ class FuncAnalyzer:
             base = self.ev(tg.value, env)
             self.effect(base.direct, "attribute store", node, attr=tg.attr)
             self.hold(tg.value, v, env)
+            for o in base.direct:
+                if o[0] == "global":
+                    self.retained(o[1], v, node)
             return
         raise AnalysisError(f"{self.fi.where}: assignment target {type(tg).__name__} outside the analysable subset")
 
@@ -1586,6 +1662,20 @@ class FuncAnalyzer:
             self.effect(recv.direct, f"in-place method .{m}()", e)
             if m in METHOD_STORES_ARG:
                 self.hold(recv_expr, container_of(*vals), env)
+                for o in recv.direct:
+                    if o[0] == "global":
+                        self.retained(o[1], container_of(*vals), e)
+        if m in RNG_GENERATOR_DRAWS:
+            # drawing advances the generator: a write to the generator object when it lives at module level or on
+            # self (a generator passed as an argument is the caller's stream and is not counted)
+            for o in recv.direct:
+                if o[0] == "global" and global_is_generator(self.program, o[1]):
+                    self.res.n_store_sites.hit(e)
+                    self.effect({o}, f"generator draw .{m}()", e)
+                elif (o[0] == "param" and o[1] == selfname and o[2] is not None and oc is not None
+                      and self.engine.attr_is_generator(oc, o[2])):
+                    self.res.n_store_sites.hit(e)
+                    self.effect({o}, f"generator draw .{m}()", e)
         if m in METHOD_VIEW:
             known = True
             result = result.join(element_of(recv))
@@ -1688,6 +1778,26 @@ class EffectsEngine:
             self._free[id(fi)] = r
         return r
 
+    def attr_is_generator(self, ci: ClassInfo, attr):
+        """Does some method of the class bind `self.<attr>` to a random generator constructor?"""
+        key = (id(ci), attr, "rng")
+        if key in self._attr_class:
+            return self._attr_class[key]
+        res = False
+        for fi in ci.methods.values():
+            a = fi.node.args.posonlyargs + fi.node.args.args
+            if not a:
+                continue
+            sn = a[0].arg
+            for n in ast.walk(fi.node):
+                if isinstance(n, ast.Assign) and isinstance(n.value, ast.Call):
+                    for t in n.targets:
+                        if (isinstance(t, ast.Attribute) and t.attr == attr and isinstance(t.value, ast.Name)
+                                and t.value.id == sn and module_level_qualname(ci.module, n.value.func) in RNG_CONSTRUCTORS):
+                            res = True
+        self._attr_class[key] = res
+        return res
+
     def methods_named(self, m):
         if self._methods is None:
             self._methods = {}
@@ -1776,6 +1886,13 @@ def seed_expr_status(fi, expr):
         return False, "computed expression"
     assigned = _assigned_names(fi.node)
     for n in names:
+        if n.id not in params and n.id not in assigned:
+            # a module-level name bound only to integer constants is a constant seed
+            vals = module_bindings(fi.module).get(n.id, [])
+            if vals and all(isinstance(v, ast.Constant) and isinstance(v.value, int) and not isinstance(v.value, bool)
+                            for v in vals) and not any(isinstance(g, ast.Global) and n.id in g.names
+                                                       for f in fi.module.all_funcs for g in ast.walk(f.node)):
+                continue
         if n.id not in params:
             return False, "local or global variable"
         if n.id in assigned:
@@ -1868,7 +1985,22 @@ def rng_sites(program, fi: FuncInfo):
             recv = q[1].id
             vals = gen_names.get(recv, [])
             from_ctor = [v for v in vals if is_default_rng_call(v)]
-            if from_ctor and len(from_ctor) == len(vals) and recv not in params:
+            shared = set()
+            for nm in [recv] + [v.id for v in vals if isinstance(v, ast.Name)]:
+                if nm == recv and (recv in params or vals):
+                    continue
+                try:
+                    r_ = rs.resolve_root(nm)
+                except AnalysisError:
+                    r_ = None
+                if r_ is not None and r_[0] == "data" and global_is_generator(program, r_[1]):
+                    shared.add(r_[1].split(":")[-1])
+            if shared:
+                nm = sorted(shared)[0]
+                sites.append(RngSite("gen-draw", f"Generator.{q[2]} on the module-level generator {nm!r}", False,
+                                     f"module-level random generator {nm!r} is drawn from inside the function: the "
+                                     f"stream is shared across calls (results depend on the call history)", n))
+            elif from_ctor and len(from_ctor) == len(vals) and recv not in params:
                 sites.append(RngSite("gen-draw", f"Generator.{q[2]} on a local default_rng", True,
                                      "generator constructed in this function (its seed is checked at the constructor)", n))
             elif recv in params and all(is_default_rng_call(v) for v in vals):
@@ -1879,6 +2011,65 @@ def rng_sites(program, fi: FuncInfo):
                                      "receiver is not only a default_rng(...) result", n))
             # else: a method called normal/choice/... on something that is not a generator: not an RNG site
     return sites
+
+
+def module_rng_sites(program, mod: ModuleInfo):
+    """Generator constructors / seeding executed at import time: [(RngSite, bound name | None)]."""
+    out = []
+    names = {}
+    for nm, vals in module_bindings(mod).items():
+        for v in vals:
+            names[id(v)] = nm
+    for st in _module_level_statements(mod.tree):
+        for n in ast.walk(st):
+            if isinstance(n, (ast.FunctionDef, ast.AsyncFunctionDef, ast.ClassDef, ast.Lambda)):
+                continue
+            if not isinstance(n, ast.Call):
+                continue
+            qn = module_level_qualname(mod, n.func)
+            if qn is None or not qn.startswith("numpy.random."):
+                continue
+            tail = qn[len("numpy.random."):]
+            if tail == "default_rng":
+                sx = n.args[0] if n.args else (n.keywords[0].value if n.keywords else None)
+                ok = isinstance(sx, ast.Constant) and isinstance(sx.value, int) and not isinstance(sx.value, bool)
+                out.append((RngSite("ctor", "module-level np.random.default_rng(constant)" if ok else
+                                    "module-level np.random.default_rng without an integer constant seed", ok,
+                                    "seeded by a constant at import time" if ok else
+                                    "import-time generator whose stream is not a function of a constant", n), names.get(id(n))))
+            elif tail == "seed":
+                out.append((RngSite("seed", "module-level np.random.seed", False,
+                                    "importing the module re-seeds the global generator", n), None))
+            elif tail in RNG_GLOBAL_DRAWS:
+                out.append((RngSite("draw", f"module-level np.random.{tail}", False,
+                                    "importing the module advances the global generator", n), None))
+            else:
+                out.append((RngSite("other", f"module-level np.random.{tail}", False,
+                                    "RNG source outside the allowed set", n), names.get(id(n))))
+    return out
+
+
+def _module_level_statements(tree):
+    out = []
+
+    def visit(stmts):
+        for s_ in stmts:
+            if isinstance(s_, (ast.FunctionDef, ast.AsyncFunctionDef, ast.ClassDef)):
+                continue
+            if isinstance(s_, (ast.If, ast.For, ast.While, ast.With, ast.Try)):
+                for fld in ("body", "orelse", "finalbody"):
+                    visit(getattr(s_, fld, []) or [])
+                for h in getattr(s_, "handlers", []) or []:
+                    visit(h.body)
+                for fld in ("test", "iter"):
+                    x = getattr(s_, fld, None)
+                    if x is not None:
+                        out.append(ast.Expr(value=x))
+            else:
+                out.append(s_)
+
+    visit(tree.body)
+    return out
 
 
 # ------------------------------------------------------------------------------------------------
